@@ -322,7 +322,16 @@ func registerVerif(p *Program) {
 		if e.reached[label] {
 			return nil
 		}
+		if e.shared != nil {
+			if _, ok := e.shared.Load(label); ok {
+				e.reached[label] = true
+				return nil
+			}
+		}
 		if c.IsTrue() {
+			if e.shared != nil {
+				e.shared.Store(label, true)
+			}
 			e.reached[label] = true
 			return nil
 		}
@@ -334,6 +343,9 @@ func registerVerif(p *Program) {
 		e.sol.Pop()
 		if r == RSat {
 			e.reached[label] = true
+			if e.shared != nil {
+				e.shared.Store(label, true)
+			}
 		}
 		return nil
 	})
